@@ -206,7 +206,7 @@ def _key(r):
 
 
 NAMES = ['m.json', 'm.json.gz', 'M.GZ', 'dir.gz/m.json', 'm.gzip', 'm.Gzip', 'm', '.gz', 'a.b/c', 'm.gz.json', 'm.tgz']
-UNITS.append(Unit(
+UNITS.append(Unit(ghost=True, 
     id='C12/model.Model.persist_to_json_file', target='xlcalculator.model:Model.persist_to_json_file',
     inputs=[('fname', Prim('str', domain=NAMES))],
     cases=[Case('writes once, to the given path, gzip exactly for a .gz/.gzip extension, the keys=True encoding of exactly the four tables; the model is untouched',
@@ -214,7 +214,7 @@ UNITS.append(Unit(
     canary=Case('canary', lambda f: True, lambda f, out: out.kind == 'ret' and opened(out.value, f, 'wb') is True),
     call=run(False, 'persist'), native_call=run(True, 'persist'), cross_key=_key))
 for _bc in (False, True):
-    UNITS.append(Unit(
+    UNITS.append(Unit(ghost=True, 
         id=f'C12/model.Model.construct_from_json_file[build_code={_bc}]', target='xlcalculator.model:Model.construct_from_json_file',
         inputs=[('fname', Prim('str', domain=NAMES))],
         cases=[Case('reads the given path with the opener persist chose for it, decodes with keys=True, restores each of the four tables from the entry of the same name, compiles afterwards iff asked',
